@@ -375,7 +375,11 @@ func (e *FnEnc) appendBuiltin(v ssa.Value, c *ssa.CallCommon, args []Val) {
 func (e *FnEnc) havocAll(why string, args ...Val) {
 	// a callee that is handed a slice may reorder or overwrite its elements, whatever they are
 	given := map[string]bool{}
+	passed := map[string]bool{}
 	for _, a := range args {
+		if a.T != "" {
+			passed[a.T] = true
+		}
 		if a.Ty != nil {
 			if st, ok := a.Ty.Underlying().(*types.Slice); ok {
 				given[e.sorts().ArrHeap(st.Elem()).Name] = true
@@ -393,6 +397,9 @@ func (e *FnEnc) havocAll(why string, args ...Val) {
 		old := e.heap(hv)
 		nw := e.havocHeap(hv)
 		for _, l := range e.locals {
+			if passed[l.ref] {
+				continue // handed to this very call (an owned position): the callee may change it
+			}
 			if l.heap == name && !l.esc.escapedAt(e.curBlock, e.curIdx) {
 				e.assume(sx("=", sx("select", nw, l.ref), sx("select", old, l.ref)))
 			}
@@ -1028,7 +1035,7 @@ func (e *FnEnc) protectCheck(l *Loc, write bool, in ssa.Instruction) {
 // immutableHeap: objects owned by go/ssa, go/types, go/token, go/constant and go/ast are not mutated by the code
 // under contract (assumption A-imm): unknown calls leave their struct heaps unchanged.
 func immutableHeap(name string) bool {
-	for _, p := range []string{"H.S.ssa.", "H.S.types.", "H.S.token.", "H.S.constant.", "H.S.ast."} {
+	for _, p := range []string{"H.S.ssa.", "H.S.types.", "H.S.token.", "H.S.constant.", "H.S.ast.", "AI."} {
 		if strings.HasPrefix(name, p) {
 			return true
 		}
